@@ -31,6 +31,7 @@ ASSUMPTIONS = [
     "the reference key of a URL is, for the plain LRUTrie, the independent vlib/lruref.reference_stems (minus 'p:' stems); for the variant tries "
     "the class's own public stem function (their stems are C07's subject)",
     "values are small ints / strings (never None: a stored None is indistinguishable from a miss by the documented API)",
+    "a literal '|' inside a stem is generated, but never directly followed by a stem prefix such as 'p:' (the serialized form is then ambiguous by design)",
 ]
 
 CLASSES = ["LRUTrie", "CanonicalizedLRUTrie", "NormalizedLRUTrie", "FingerprintedLRUTrie"]
@@ -163,12 +164,13 @@ EVALUATORS = {"lrutrie_history": eval_history}
 SMALL = ["http://a.com", "http://a.com/", "http://a.com/x", "http://a.com/x/", "http://a.com/x/y", "http://a.com//x",
          "http://a.com/x?q=1", "http://a.com/x#f", "http://a.com/x?q=1#f", "http://b.a.com", "http://b.a.com/x",
          "https://a.com", "https://a.com/x", "http://a.com:8080", "http://a.com:8080/x", "http://com", "http://a.co.uk",
-         "http://b.a.co.uk/x", "http://co.uk", "http://a.com/xy"]
+         "http://b.a.co.uk/x", "http://co.uk", "http://a.com/xy", "http://a.com/x|y?q=1|2"]
 SMALL_Q = SMALL + ["http://c.b.a.com/x/y/z?q=1#f", "http://a.com/x/y/z", "http://A.com/x", "http://www.a.com/x", "a.com/x",
                    "http://a.com/X", "http://x.co.uk", "http://a.com:8080/x/y", "https://b.a.com/x", "http://a.com/x/?q=1",
                    "http://a.com/x//y", "http://ab.com", "http://a.com/?q=1", "http://a.com/#f", "http://uk",
                    "http://a.com/x/index.html", "http://a.com/x?utm_source=z", "HTTP://A.COM/x/", "http://a.com/%78",
-                   "http://fr.a.com/x"]
+                   "http://fr.a.com/x", "http://a.com/../x", "http://a.com/x/../../x/y", "http://a.com/x|y", "http://a.com/x|y?q=1|2#f|g",
+                   "http://a.com/./x/y/.."]
 
 
 def _nt(case):
@@ -228,8 +230,11 @@ def _enum(acc, shard, nshards, seed, tier, length=2):
 
 BIG_HOSTS = ["a.com", "b.a.com", "c.b.a.com", "www.a.com", "a.co.uk", "b.a.co.uk", "com", "x.kawasaki.jp", "a.x.kawasaki.jp",
              "A.com", "fr.a.com", "m.a.com"]
-BIG_PATHS = ["", "/", "/x", "/x/", "/x/y", "/x//y", "/x/y/z", "/X", "/x/index.html", "/%78", "/x/amp/"]
-BIG_TAILS = ["", "?q=1", "#f", "?q=1#f", "?b=2&a=1", "?a=1&b=2", "?utm_source=t&a=1", "#/route"]
+BIG_PATHS = ["", "/", "/x", "/x/", "/x/y", "/x//y", "/x/y/z", "/X", "/x/index.html", "/%78", "/x/amp/",
+             # dot segments, also climbing above the root; a literal '|' inside a stem (never followed by '<stem letter>:', which the
+             # serialized format cannot tell from a separator)
+             "/../x", "/x/../../x/y", "/./x/y/..", "/x|y", "/x/L|R/z"]
+BIG_TAILS = ["", "?q=1", "#f", "?q=1#f", "?b=2&a=1", "?a=1&b=2", "?utm_source=t&a=1", "#/route", "?family=L|R", "#tab|2"]
 KW = {
     "LRUTrie": [{}],
     "CanonicalizedLRUTrie": [{}, {"strip_fragment": True}, {"quoted": True}],
